@@ -348,6 +348,10 @@ type TxnViews struct {
 	RO *fox.Txn
 	WT *fox.Txn
 	WF *fox.Router
+	// W0: a write transaction holding the set uncommitted on a router that never had a route (the published
+	// tree it started from is empty: no parameters, no depth); SN: a Txn.Snapshot of W0
+	W0 *fox.Txn
+	SN *fox.Txn
 }
 
 func (e *Env) BuildTxnViews() (*TxnViews, error) {
@@ -365,25 +369,38 @@ func (e *Env) BuildTxnViews() (*TxnViews, error) {
 			return nil, fmt.Errorf("write txn rejects route accepted by router: %v", err)
 		}
 	}
+	e3 := NewEnv(e.Prof)
+	a.W0 = e3.F.Txn(true)
+	for i, s := range e.Set {
+		if _, err := a.W0.Handle(s.Method, s.Pattern, e3.Handler(i), RouteOpts(i, s)...); err != nil {
+			a.Close()
+			return nil, fmt.Errorf("write txn on an empty router rejects route accepted by router: %v", err)
+		}
+	}
+	a.SN = a.W0.Snapshot()
 	return a, nil
 }
 
 func (a *TxnViews) Close() {
 	a.RO.Abort()
 	a.WT.Abort()
+	if a.SN != nil {
+		a.SN.Abort()
+	}
+	if a.W0 != nil {
+		a.W0.Abort()
+	}
 }
 
 // Disagree observes the lookups of rq through both views and reports the first one that differs from
 // the router's own observation o.
 func (a *TxnViews) Disagree(rq Req, o *Obs) string {
 	var ot Obs
-	for i, l := range []*fox.Txn{a.RO, a.WT} {
+	for i, l := range []*fox.Txn{a.RO, a.WT, a.W0, a.SN} {
 		ObserveLookups(l, rq, &ot)
 		if ot.RevID != o.RevID || ot.RevTsr != o.RevTsr || ot.LkID != o.LkID || ot.LkTsr != o.LkTsr || !SameKV(ot.LkParams, o.LkParams) || ot.ItID != o.ItID {
-			which := "read-only Txn"
-			if i == 1 {
-				which = "write Txn holding the same routes uncommitted"
-			}
+			which := [...]string{"read-only Txn", "write Txn holding the same routes uncommitted (on a router with one committed route)",
+				"write Txn holding the same routes uncommitted on a router that never had a route", "Snapshot of that write Txn"}[i]
 			return fmt.Sprintf("%s answers reverse=(%d,%v) lookup=(%d,%v,[%s]) iter=%d", which, ot.RevID, ot.RevTsr, ot.LkID, ot.LkTsr, KVString(ot.LkParams), ot.ItID)
 		}
 	}
